@@ -201,18 +201,6 @@ Fixpoint parse_fastq (fuel : nat) (ls : list (list Z)) : option (list row) :=
            | _ => None
            end
   end.
-(* the delimited reader as it is cannot return a table in which an identifier (SequenceID, kind 6) column is
-   empty in every row (file_buffers.move_intervals_to_right_padded_array: reshape((-1, 0)) of zero bytes; the
-   FASTA/FASTQ name path through string_array was repaired in /repo b1580f3).
-   SWITCH: true = as it is (no fix proposed) *)
-Definition reader_needs_nonempty_id := true.
-Definition id_cols_ok (schema : list Z) (rows : list row) : bool :=
-  match rows with
-  | [] => true
-  | _ => forallb (fun i => negb (nthZ schema i =? 6)
-                           || existsb (fun r => match nth (Z.to_nat i) r (FS [0]) with FS [] => false | _ => true end) rows)
-                 (arange (len schema))
-  end.
 Definition parse_raw_with pf (f : fmt) (schema : list Z) (file : list Z) : option (list row) :=
   match f with
   | Delim | DelimL => all_some (map (parse_line_with pf schema) (lines file))
@@ -222,12 +210,9 @@ Definition parse_raw_with pf (f : fmt) (schema : list Z) (file : list Z) : optio
   | Fastq => let ls := lines file in parse_fastq (length ls) ls
   end.
 Definition parse_raw := parse_raw_with no_float_value.
-Definition delimited (f : fmt) : bool := match f with Fasta _ | Fastq => false | _ => true end.
-Definition parse_file (f : fmt) (schema : list Z) (file : list Z) : option (list row) :=
-  match parse_raw f schema file with
-  | Some rs => if negb (reader_needs_nonempty_id && delimited f) || id_cols_ok schema rs then Some rs else None
-  | None => None
-  end.
+(* the reader used by the correspondence.  (Until /repo 58b75b9 the delimited reader could not return a table whose
+   identifier column was empty in every row; that restriction and its switch are gone.) *)
+Definition parse_file (f : fmt) (schema : list Z) (file : list Z) : option (list row) := parse_raw f schema file.
 
 (* =====================================================================================
    PART B — MODEL: the library's algorithms
